@@ -115,6 +115,54 @@ pub fn run(seed: u64, n_docs: u64, n_maps: u64, n_par: u64) -> BulkResult {
             Err(_) => r.failures.push(format!("roundtrip #{}: panic", i)),
         }
     }
+    // 1b. other entry types: zero-sized, nested, wide - the same documents through std must give
+    // the same contents, and nothing may panic
+    {
+        type Unit = std::marker::PhantomData<u8>;
+        macro_rules! same_as_std {
+            ($name:expr, $doc:expr, $fl:ty, $st:ty, $cmp:expr) => {{
+                r.roundtrips += 1;
+                let doc: &str = $doc;
+                let res = catch_unwind(AssertUnwindSafe(|| {
+                    let a: Result<$fl, _> = serde_json::from_str(doc);
+                    let b: Result<$st, _> = serde_json::from_str(doc);
+                    match (a, b) {
+                        (Ok(a), Ok(b)) => {
+                            let f: fn(&$fl, &$st) -> bool = $cmp;
+                            if f(&a, &b) { Ok(()) } else { Err(format!("{}: contents differ from std for {}", $name, doc)) }
+                        }
+                        (Err(_), Err(_)) => Ok(()),
+                        (Ok(_), Err(e)) => Err(format!("{}: accepted {} which std rejects ({})", $name, doc, e)),
+                        (Err(e), Ok(_)) => Err(format!("{}: rejected {} which std accepts ({})", $name, doc, e)),
+                    }
+                }));
+                match res {
+                    Ok(Ok(())) => {}
+                    Ok(Err(e)) => r.failures.push(e),
+                    Err(_) => r.failures.push(format!("{}: deserialising {} panicked", $name, doc)),
+                }
+            }};
+        }
+        for doc in ["[]", "[null]", "[null,null,null]"] {
+            same_as_std!("HashSet<()>", doc, HashSet<()>, BTreeSet<()>, |a, b| a.len() == b.len());
+            same_as_std!("HashSet<Unit>", doc, HashSet<Unit>, BTreeSet<Unit>, |a, b| a.len() == b.len());
+        }
+        for doc in ["{}", "{\"a\":null}", "{\"a\":null,\"b\":null,\"a\":null}"] {
+            same_as_std!("HashMap<String,()>", doc, HashMap<String, ()>, BTreeMap<String, ()>, |a, b| a.len() == b.len());
+        }
+        for doc in ["[[1,2],[3,4],[1,2]]", "[]", "[[],[0]]"] {
+            same_as_std!("HashSet<Vec<u8>>", doc, HashSet<Vec<u8>>, BTreeSet<Vec<u8>>, |a, b| {
+                let g = a.guard();
+                a.len() == b.len() && b.iter().all(|x| a.contains(x, &g))
+            });
+        }
+        for doc in ["{\"a\":[1,2,3,4,5,6,7,8],\"b\":[0,0,0,0,0,0,0,0]}", "{}"] {
+            same_as_std!("HashMap<String,[u64;8]>", doc, HashMap<String, [u64; 8]>, BTreeMap<String, [u64; 8]>, |a, b| {
+                let g = a.guard();
+                a.len() == b.len() && b.iter().all(|(k, v)| a.get(k, &g) == Some(v))
+            });
+        }
+    }
     // 2. generated documents
     for _ in 0..n_docs {
         let (doc, well, repeats) = gen_doc(&mut rng);
